@@ -405,7 +405,17 @@ def run_correspondence(rep: Report, drv, cases, impl, model_req, compare, oracle
                 replies = None
         for i, (c, o) in enumerate(buf):
             pub = {k: v for k, v in o.items() if not k.startswith("_")} if isinstance(o, dict) else o
-            for key, what in oracle(c, o):
+            try:
+                found = list(oracle(c, o))
+            except Exception as e:
+                # the oracle calls the code under test too (e.g. to re-embed a result): an exception there is a broken correspondence
+                # on this case, reported with the case - not a crash of the check
+                found = []
+                rep.count("oracle-raised")
+                if len([b for b in rep.broken if b["broken"] == opname + ":oracle"]) < 3:
+                    rep.tie_broken(opname + ":oracle", "correspondence", f"the property oracle raised {type(e).__name__}: {e} "
+                                   f"({traceback.format_exc()[-300:]})", case=c, observed=pub)
+            for key, what in found:
                 rep.finding(key, what, c, observed=pub)
             if replies is not None:
                 r = replies[i]
@@ -424,6 +434,9 @@ def run_correspondence(rep: Report, drv, cases, impl, model_req, compare, oracle
             o = impl(c)
         except Exception as e:  # harness bug or unexpected crash: treat as broken tie, keep going
             o = {"harness_exception": f"{type(e).__name__}: {e}", "tb": traceback.format_exc()[-600:]}
+            for attr in ("inverse_raised", "ckey"):
+                if hasattr(e, attr):
+                    o[attr] = getattr(e, attr)
         rep.case(c, nontrivial(c, o) if nontrivial else True)
         buf.append((c, o))
         if len(buf) >= batch:
